@@ -95,6 +95,36 @@ func init() {
 		},
 		race: rl((*rlweEnv).evalSubjects, true)})
 	regGroup(&groupDef{name: "rlwe-deep", run: rl((*rlweEnv).deepSubjects, false)})
+	bg := func(race bool) func(c *eng.Ctx, cc caseCfg) {
+		return func(c *eng.Ctx, cc caseCfg) {
+			e, err := newBGVEnv(cc.P)
+			if err != nil {
+				c.Inconclusive(err.Error())
+				return
+			}
+			if race {
+				raceSubjects(c, cc, onlySafe(e.subjects()))
+			} else {
+				runSubjects(c, cc, e.subjects())
+			}
+		}
+	}
+	regGroup(&groupDef{name: "bgv", run: bg(false), race: bg(true)})
+	ck := func(race bool) func(c *eng.Ctx, cc caseCfg) {
+		return func(c *eng.Ctx, cc caseCfg) {
+			e, err := newCKKSEnv(cc.P)
+			if err != nil {
+				c.Inconclusive(err.Error())
+				return
+			}
+			if race {
+				raceSubjects(c, cc, onlySafe(e.subjects()))
+			} else {
+				runSubjects(c, cc, e.subjects())
+			}
+		}
+	}
+	regGroup(&groupDef{name: "ckks", run: ck(false), race: ck(true)})
 }
 
 func enumerate(r *eng.Rand, thorough bool, add func(group string, ps pset, variant string, po *pset), addRace func(group string, ps pset, variant string, po *pset, G, procs, reps int)) {
@@ -154,7 +184,59 @@ func enumerate(r *eng.Rand, thorough bool, add func(group string, ps pset, varia
 		add("rlwe-eval", ps, "", nil)
 		add("rlwe-deep", ps, "", nil)
 	}
+	// ---- schemes
+	type sc struct {
+		name     string
+		logN     int
+		ringT    string
+		qb, pb   []int
+		t        uint64
+		logScale int
+		pow2     int
+	}
+	bgvCfgs := []sc{
+		{"bgvA", 6, "", []int{45, 40, 40, 40}, []int{50, 50}, 65537, 0, 0},
+		{"bgvGap", 7, "", []int{45, 40, 40}, []int{50}, 257, 0, 0},
+		{"bgvNoP", 5, "", []int{50, 40, 40}, nil, 65537, 0, 12},
+	}
+	ckksCfgs := []sc{
+		{"ckksA", 6, "", []int{55, 45, 45, 45}, []int{55, 55}, 0, 45, 0},
+		{"ckksCI", 6, "ci", []int{55, 45, 45}, []int{55}, 0, 45, 0},
+		{"ckksNoP", 5, "", []int{50, 40, 40}, nil, 0, 40, 12},
+	}
+	if thorough {
+		bgvCfgs = append(bgvCfgs, sc{"bgvB", 8, "", []int{60, 45, 45, 45, 45}, []int{61, 61, 61}, 786433, 0, 0}, sc{"bgvC", 4, "", []int{36, 30, 30}, []int{40}, 97, 0, 0},
+			sc{"bgvD", 7, "", []int{55, 55, 55}, []int{56}, 65537, 0, 0})
+		ckksCfgs = append(ckksCfgs, sc{"ckksB", 8, "", []int{60, 40, 40, 40, 40, 40}, []int{61, 61}, 0, 40, 0}, sc{"ckksC", 4, "", []int{50, 35, 35}, []int{50}, 0, 35, 0},
+			sc{"ckksD", 7, "ci", []int{60, 50, 50}, []int{60, 60}, 0, 50, 0})
+	}
+	for _, x := range bgvCfgs {
+		if ps, ok := mk(x.name, x.logN, x.ringT, x.qb, x.pb); ok {
+			ps.T, ps.Pow2 = x.t, x.pow2
+			add("bgv", ps, "", nil)
+		}
+	}
+	for _, x := range ckksCfgs {
+		if ps, ok := mk(x.name, x.logN, x.ringT, x.qb, x.pb); ok {
+			ps.LogScale, ps.Pow2 = x.logScale, x.pow2
+			add("ckks", ps, "", nil)
+		}
+	}
 	// ---- concurrent variants
+	if ps, ok := mk("raceBgv", 6, "", []int{45, 40, 40}, []int{50, 50}); ok {
+		ps.T = 65537
+		addRace("bgv", ps, "", nil, 4, 4, 1)
+		if thorough {
+			addRace("bgv", ps, "", nil, 12, 16, 1)
+		}
+	}
+	if ps, ok := mk("raceCkks", 6, "", []int{55, 45, 45}, []int{55, 55}); ok {
+		ps.LogScale = 45
+		addRace("ckks", ps, "", nil, 4, 2, 1)
+		if thorough {
+			addRace("ckks", ps, "", nil, 16, 16, 1)
+		}
+	}
 	if ps, ok := mk("raceRing", 6, "", []int{55, 45, 40}, []int{50, 61}); ok {
 		addRace("ring", ps, "", nil, 4, 4, 2)
 	}
